@@ -16,18 +16,40 @@ STRINGS = ["", "a", "aa", "ab", "b", "7", "日本", "x", "x-1", "A", "a ", " a",
 SPECS = ["fixtures/validation/valid-ref.json", "fixtures/validation/fixture-161-good.json", "fixtures/validation/fixture-43.json", "fixtures/validation/duplicateprops.json", "fixtures/validation/fixture-1243-5.json"]
 
 
+FATAL = []          # fatal Go runtime errors of the last run_race call: [{"message", "case"}]
+
+
 def run_race(binr, prop, cases, timeout=3000):
-    """returns (records, race_reports)"""
-    p = subprocess.run([binr, prop, "run"], input="".join(json.dumps(c) + "\n" for c in cases), capture_output=True,
-                       text=True, timeout=timeout)
-    recs = C.jsonl(p.stdout)
-    races = []
-    if "DATA RACE" in p.stderr:
-        for blk in p.stderr.split("==================")[1:]:
-            if "DATA RACE" in blk:
-                races.append(blk.strip()[:3000])
-    if p.returncode not in (0, 66) and not races:
-        raise RuntimeError("harness %s run failed (%d): %s" % (prop, p.returncode, p.stderr[-2000:]))
+    """returns (records, race_reports); a fatal runtime error of the harness process (concurrent map writes, stack overflow:
+    Go cannot recover from them) is kept in FATAL together with the case that was running, and the remaining cases are run
+    in a new process"""
+    del FATAL[:]
+    recs, races = [], []
+    todo = list(cases)
+    for attempt in range(6):
+        if not todo:
+            break
+        p = subprocess.run([binr, prop, "run"], input="".join(json.dumps(c) + "\n" for c in todo), capture_output=True,
+                           text=True, timeout=timeout)
+        got = []
+        for line in p.stdout.splitlines():
+            try:
+                got.append(json.loads(line))
+            except ValueError:
+                break                      # the line being written when the process died
+        recs += got
+        if "DATA RACE" in p.stderr:
+            for blk in p.stderr.split("==================")[1:]:
+                if "DATA RACE" in blk:
+                    races.append(blk.strip()[:3000])
+        if "fatal error:" in p.stderr and len(got) < len(todo):
+            msg = p.stderr[p.stderr.index("fatal error:"):].splitlines()[0]
+            FATAL.append({"message": msg, "case": todo[len(got)]})
+            todo = todo[len(got) + 1:]
+            continue
+        if p.returncode not in (0, 66) and not races:
+            raise RuntimeError("harness %s run failed (%d): %s" % (prop, p.returncode, p.stderr[-2000:]))
+        break
     return recs, races
 
 
